@@ -34,6 +34,7 @@ func checkC14(r *Report, p *Program) {
 	getObjectTable(r, p, "R14.13")
 	operandFromTheLoop(r, p, "R14.14")
 	fanOutLoopsDoNotReturn(r, p, "R14.15")
+	smallVerbClauses(r, p, "R14.16")
 	relatedNotifyTable(r, p, "R14.9")
 }
 
